@@ -432,7 +432,7 @@ func c05Phases() []*fw.Phase {
 	}
 	combos := &fw.Phase{
 		Name: "random-link-combinations", Chroot: true,
-		N: fw.Fixed(3000, 60000),
+		N: fw.Fixed(12000, 100000),
 		Run: func(env *fw.Env, idx int) fw.Result {
 			r := env.Rand(idx)
 			n := 1 + r.Intn(6)
